@@ -2,7 +2,8 @@
    prod, sumbool, sumor map to OCaml's; nat / N / Z / positive stay the extracted datatypes). *)
 Require Extraction.
 Require Import ExtrOcamlBasic.
-From RtrV Require Import Pfx.TrieModel Pfx.PfxTable.
+From RtrV Require Import Pfx.TrieModel Pfx.PfxTable Pfx.Hazards Rtr.RtrModel.
 Extraction "model.ml"
   empty_table tadd tremove tsrc_remove tfree tvalidate tvalidate_ub trecords tcopy_except tswap tnotify_diff
-  sp_add sp_remove sp_src_remove sp_validate sp_mem fcovrec fmatrec src_of replay frec_eqb size.
+  sp_add sp_remove sp_src_remove sp_validate sp_mem fcovrec fmatrec src_of replay frec_eqb size hz_zero_code
+  run_script init_ok.
